@@ -227,7 +227,7 @@ PROPS.update({
         "steps": [MAIN, miri(mode="miri", nshards=16), asan(scale=10)],
         "required_buckets": {"all": ["resolved-to-a-name", "resolved-on-line-with-non-ascii", "non-ascii-identifier-resolved", "multi-line-program",
                                      "non-identifier-candidate->None", "token-past-end-of-line-or-on-missing-line", "walk:pair-within-limit",
-                                     "walk:pair-beyond-limit", "index:resolved-in-first-section", "index-with-section-at-nonzero-offset"]},
+                                     "walk:pair-beyond-limit", "index:resolved-in-first-section", "index-with-section-at-nonzero-offset", "map-with-range-tokens"]},
         "assumptions": COMMON_ASSUME + ["identifier classification over the closed character pool of the generator is hard-coded in the harness (independent of unicode-id-start)",
                                          "'at most 128': a pair within the first 120 walked tokens must be found, none within 136 must give nothing, the band in between is not asserted",
                                          "token columns never point into the middle of a surrogate pair; token positions are unique within a map"],
